@@ -166,6 +166,7 @@ class Ctx:
                 "build_variants": sorted({t["variant"] for t in self.facts.tus}),
                 "known_findings_reported": len(seen_known),
                 "notes": self.notes,
+                "checker_selftest": getattr(self, "sentinels", None),
                 "exhaustive": bool(self.exhaustive) and all(self.exhaustive.values()),
             },
             "assumptions": list(assumptions),
